@@ -56,9 +56,10 @@ Theorem C07_ugrid_closed_every_history : forall vr h ds, vr_copy_template vr = t
 Proof. exact c07_ugrid_closed_repaired. Qed.
 Print Assumptions C07_ugrid_closed_every_history.
 
-(* the hypothesis c07_ds_wfb matters: a Cartesian-only grid (node_x/y/z, node_lon never materialised)
-   is encoded with node_coordinates naming variables it does not have, and cannot be read back
-   (while its Exodus encoding works) *)
+(* the hypothesis c07_ds_wfb matters: _encode_ugrid applied to a Cartesian-only dataset (node_x/y/z,
+   no node_lon) names variables it does not have and the result cannot be read back (its Exodus
+   encoding works); since /repo 180a4a66 the dispatch derives node_lon/node_lat first, so the
+   encoder no longer sees such a dataset *)
 Theorem C07_ugrid_cartesian_only_refuted :
   exists ds, c07_has ds c07_s_node_x = true /\ c07_has ds c07_s_node_lon = false /\
     c07_closed (uo_ds (c07_encode_ugrid c07_faithful c07_base_template ds)) = false /\
@@ -76,14 +77,15 @@ Theorem C07_ugrid_writable : forall vr tmpl ds, c07_tmpl_ok tmpl ->
 Proof. exact c07_ugrid_writable. Qed.
 Print Assumptions C07_ugrid_writable.
 
-(* the code as it is: not after edge_node_connectivity (boolean fill_value_mask) was built *)
+(* without the stripping (before /repo 9a5ff0a0): not after edge_node_connectivity (boolean
+   fill_value_mask) was built *)
 Theorem C07_ugrid_writable_refuted :
   exists ds, c07_ds_wfb ds = true /\
-    c07_writable (uo_ds (c07_encode_ugrid c07_faithful c07_base_template ds)) = false.
+    c07_writable (uo_ds (c07_encode_ugrid c07_before_fixes c07_base_template ds)) = false.
 Proof. exact c07_ugrid_writable_refuted. Qed.
 Print Assumptions C07_ugrid_writable_refuted.
 
-(* the proposed repair (work on a copy, drop the helper objects inverse_indices / fill_value_mask /
+(* the code as it is (since 9a5ff0a0; the dispatch hands over a private deep copy; drop the helper objects inverse_indices / fill_value_mask /
    latitude_intervalsIndex / latitude_intervals_name_map from the copy's attrs): writable whenever
    those are the only unstorable attributes, for every template a history can produce *)
 Theorem C07_ugrid_writable_stripped : forall vr tmpl ds,
@@ -93,6 +95,14 @@ Theorem C07_ugrid_writable_stripped : forall vr tmpl ds,
   c07_writable (uo_ds (c07_encode_ugrid vr tmpl ds)) = true.
 Proof. exact c07_ugrid_writable_stripped. Qed.
 Print Assumptions C07_ugrid_writable_stripped.
+
+Theorem C07_ugrid_writable_faithful : forall tmpl ds,
+  c07_tmpl_ok tmpl ->
+  (forall v kv, In v ds -> In kv (cv_attrs v) -> c07_netcdf_ok (snd kv) = false ->
+                c07_is_helper (cv_name v) (fst kv) = true) ->
+  c07_writable (uo_ds (c07_encode_ugrid c07_faithful tmpl ds)) = true.
+Proof. exact c07_ugrid_writable_faithful. Qed.
+Print Assumptions C07_ugrid_writable_faithful.
 
 (* ---- UGRID round trip ------------------------------------------------------------------ *)
 
@@ -137,20 +147,19 @@ Print Assumptions C07_ugrid_roundtrip_alias_refuted.
 
 (* ---- Exodus ----------------------------------------------------------------------------- *)
 
-(* the code as it is (padding test == -1): the connectivity of every standard-form table with
-   2..8 columns comes back unchanged, in the same face order (a fortiori as the same multiset),
-   for any mix of face sizes, with either reader *)
-Theorem C07_exodus_faithful_roundtrip : forall vr nmax t,
+(* padding test == -1 (the code before /repo 5ac9d665): the connectivity of every standard-form
+   table with 2..8 columns came back unchanged "by accident" (one block of n_max-gons) *)
+Theorem C07_exodus_minus1_roundtrip : forall vr nmax t,
   vr_exo_fill vr = -1 -> std_table nmax t -> t <> [] -> c07_exo_elem_ok nmax = true ->
   exists b, c07_exo_connect vr nmax t = Some [b] /\ c07_read_exodus_conn vr [b] = t.
 Proof. exact c07_exodus_faithful_roundtrip. Qed.
-Print Assumptions C07_exodus_faithful_roundtrip.
+Print Assumptions C07_exodus_minus1_roundtrip.
 
-(* ... but raises when the table has more than 8 columns although all faces are triangles *)
+(* ... but raised when the table had more than 8 columns although all faces are triangles *)
 Theorem C07_exodus_width_refuted :
   exists nmax t, std_tableb nmax t = true /\ t <> [] /\
     Forall (fun r => (3 <= length (corners r) <= 8)%nat) t /\
-    c07_exo_connect c07_faithful nmax t = None.
+    c07_exo_connect c07_before_fixes nmax t = None.
 Proof. exact c07_exodus_width_refuted. Qed.
 Print Assumptions C07_exodus_width_refuted.
 
@@ -163,16 +172,23 @@ Theorem C07_exodus_start_refuted :
 Proof. exact c07_exodus_start_refuted. Qed.
 Print Assumptions C07_exodus_start_refuted.
 
-(* all three repairs (padding test == INT_FILL_VALUE, start += num_faces, reader concatenating all
-   connect blocks): for every mix of face sizes the decoded faces are the grid's faces as a
+(* padding test == INT_FILL_VALUE, start += num_faces, reader concatenating all connect blocks (the
+   code as it is): for every mix of face sizes the decoded faces are the grid's faces as a
    multiset (grouped by size, order kept inside a group) *)
-Theorem C07_exodus_repaired_roundtrip : forall vr nmax t,
+Theorem C07_exodus_roundtrip : forall vr nmax t,
   vr_exo_fill vr = FILL -> vr_exo_accumulate vr = true -> vr_exo_read_all vr = true ->
   std_table nmax t -> Forall (fun r => c07_exo_elem_ok (length (corners r)) = true) t ->
   exists bs, c07_exo_connect vr nmax t = Some bs /\
     Permutation (map corners (c07_read_exodus_conn vr bs)) (map corners t).
 Proof. exact c07_exodus_repaired_roundtrip. Qed.
-Print Assumptions C07_exodus_repaired_roundtrip.
+Print Assumptions C07_exodus_roundtrip.
+
+Theorem C07_exodus_roundtrip_faithful : forall nmax t,
+  std_table nmax t -> Forall (fun r => c07_exo_elem_ok (length (corners r)) = true) t ->
+  exists bs, c07_exo_connect c07_faithful nmax t = Some bs /\
+    Permutation (map corners (c07_read_exodus_conn c07_faithful bs)) (map corners t).
+Proof. exact c07_exodus_roundtrip_faithful. Qed.
+Print Assumptions C07_exodus_roundtrip_faithful.
 
 (* node positions: without np.deg2rad (before /repo ce96ede9) _lonlat_rad_to_xyz was fed DEGREES *)
 Theorem C07_exodus_coord_degrees_refuted :
